@@ -153,9 +153,19 @@ pub fn interpret(data: &Rcvar, node: &Ast, ctx: &mut Context<'_>) -> SearchResul
                 fn_args.push(interpret(data, arg, ctx)?);
             }
             // Reset the offset so that it points to the function being evaluated.
+            let caller_offset = ctx.offset;
             ctx.offset = offset;
             match ctx.runtime.get_function(name) {
-                Some(f) => f.evaluate(&fn_args, ctx),
+                Some(f) => {
+                    let result = f.evaluate(&fn_args, ctx);
+                    // A call that has returned must not leave its position behind: a caller
+                    // that is still running (e.g. sort_by evaluating its expression argument)
+                    // reports its own errors at its own position.
+                    if result.is_ok() {
+                        ctx.offset = caller_offset;
+                    }
+                    result
+                }
                 None => {
                     let reason =
                         ErrorReason::Runtime(RuntimeError::UnknownFunction(name.to_owned()));
